@@ -404,6 +404,11 @@ class CallMixin:
             if all(isinstance(a, int) for a in args):
                 return [(st, range(*args))]
             from .pysem import SRange
+            if len(args) == 3 and isinstance(args[2], SInt):
+                # a symbolic step that the path condition pins to one value (e.g. through a callee's postcondition)
+                c = self.try_concrete_int(st, args[2])
+                if c is not None:
+                    args = [args[0], args[1], c]
             if len(args) == 3 and isinstance(args[2], int) and args[2] != 0 and \
                     all(isinstance(a, (int, SInt)) for a in args[:2]):
                 return [(st, SRange(*args))]
